@@ -58,6 +58,8 @@ class Config:
     batch: int = 4
     skip_layers: list[str] = field(default_factory=list)
     sched: dict[str, str] = field(default_factory=dict)  # param -> fn name
+    keep_grads: bool = False     # optimizer.zero_grad(set_to_none=False): the
+    # gradient tensors survive from one iteration to the next
     grad_scaler: Any = None      # float: constant loss scale; 'dyn<base>':
     # the scale changes from micro-batch to micro-batch (base * 2**k)
     sgd_lr: float = 0.05
@@ -82,6 +84,8 @@ FUNCS: dict[str, Callable[[int], Any]] = {
     'decay_lin': lambda s: 0.5 + 0.05 * min(s, 8),
     'kl_lin': lambda s: 0.001 * (s + 1),
     'kl_tiny': lambda s: 1e-7 * (s + 1),
+    # not clipped on even steps, clipped hard on odd ones
+    'kl_alt': lambda s: 1e9 if s % 2 == 0 else 1e-7,
     'lr_lin': lambda s: 0.1 * (s + 1),
     'int_1_2': lambda s: 1 if s < 2 else 2,
     'int_2_1': lambda s: 2 if s < 2 else 1,
@@ -482,7 +486,7 @@ class RankRun:
                  backward: bool = True) -> None:
         cfg = self.cfg
         self.model.train(mode_train)
-        self.model.zero_grad(set_to_none=True)
+        self.model.zero_grad(set_to_none=not self.cfg.keep_grads)
         for mb in range(n_micro):
             x, y = make_batch(cfg, self.seed, self.rank, self.it, mb,
                               self.dtype)
